@@ -92,6 +92,22 @@ def node(opname, a=(), n="", ty=None, i=(), s=(), bv=()):
             "i": list(i), "s": list(s), "bv": list(bv)}
 
 
+def export_result(f):
+    """Export of a RESULT (the output of the code under test): a number beyond 32 bits does not make the event
+    disappear - it is exported symbolically, so that the contract sees a constant that is not the expected one
+    (a result that is legitimately that big makes TLC overflow on the expected value: inconclusive, reported)."""
+    global SYMBOLIC_BIG
+    try:
+        return export(f)
+    except Unrepresentable:
+        old = SYMBOLIC_BIG
+        SYMBOLIC_BIG = True
+        try:
+            return export(f)
+        finally:
+            SYMBOLIC_BIG = old
+
+
 def export(f, memo=None):
     """Structural export of an FNode (iterative, DAG-memoised)."""
     if memo is None:
